@@ -281,6 +281,10 @@ func ParseProofG1(bytes []byte) (*ProofG1, error) {
 	responses := make([]*ml.Zr, length)
 	for i := 0; i < length; i++ {
 		responses[i] = parseFr(bytes[offset : offset+frCompressedSize])
+		if !isCanonicalFr(responses[i], bytes[offset:offset+frCompressedSize]) {
+			return nil, errors.New("parse G1 signature proof: response scalar is not below the group order")
+		}
+
 		offset += frCompressedSize
 	}
 
